@@ -33,7 +33,9 @@ LEAN_TARGETS = ["NfcVerif.Props.C13", "drv_c13"]
 
 THEOREMS = [
     "NfcVerif.C13.host_command_documented",
-    "NfcVerif.C13.driver_outcome_documented",
+    "NfcVerif.C13.driver_outcome_documented_partial",
+    "NfcVerif.C13.short_payload_counterexample",
+    "NfcVerif.C13.fifo_single_register_counterexample",
     "NfcVerif.C13.driver_outcome_documented_rcs380_partial",
     "NfcVerif.C13.rcs380_short_frame_counterexample",
     "NfcVerif.C13.asfound_chipset_error_counterexample",
@@ -351,8 +353,9 @@ def run(ck):
         "single fault per exchange in the correspondence runs (the theorems quantify over arbitrary behaviour at every host command)",
         "the simulated chipsets answer as the vendor manuals say; a response still unread when the next command is "
         "written is discarded (no stale frames)",
-        "exchange timeout is a positive number; well-formed responses carry the number of octets the manual specifies "
-        "(hypothesis PayloadOK of the theorems; shorter payloads raise IndexError/ValueError/TypeError in the chipset helpers)",
+        "exchange timeout is a positive number; the differential run keeps the payload length of well-formed responses "
+        "(hypothesis PayloadOK of the _partial theorem; shorter payloads are probed by the oracle: open findings "
+        "pn53x-short-payload-internal-error, pn53x-fifo-level-internal-error)",
         "Type 1 Tag commands outside the chipset's own set (READ8/WRITE8/RSEG on PN532/PN533) are driven through CIU "
         "registers and are not in the model",
         "IOError raised by the cancel ACK written after a host timeout is not modelled",
@@ -472,6 +475,42 @@ def run(ck):
                             reqs.append((line, out, (name, d, kind, hd, step, phase, tok), verdict))
                             ck.case((name, d, kind, hd, step, phase, tok), hit and out != out0, "%s:%s" % (name, bucket),
                                     sample={"request": line, "impl": out} if len(ck.samples) < 3 and bucket.startswith("status") and out.startswith("exc") else None)
+
+    # ------------------------------------------------------------- payload length probes (L3 only)
+    # well-formed response frames whose payload is shorter than the manual says (excluded by PayloadOK)
+    for name in PN:
+        rig = Rig(name, clock)
+        one = b"\x00\x05" if rig.tr.family == "pn533" else b"\x05"
+        probes = [("i", "t4a", (3, "rsp"), b"", "InCommunicateThru response without status octet"),
+                  ("i", "t4a", (0, "rsp"), b"", "ReadRegister response without values"),
+                  ("i", "t4a", (0, "rsp"), one, "ReadRegister response with one value for three registers")]
+        if KINDS[name][1]:
+            probes.append(("t", "dep", (1, "rsp"), b"", "TgGetInitiatorCommand response without status octet"))
+        for d, kind, site, payload, what in probes:
+            out, _, hit = rig.run(d, kind, True, site, ("payload", payload))
+            ck.case(("short-payload", name, d, kind, site, payload), True, "short-payload")
+            cls = out[4:] if out.startswith("exc ") else ""
+            if not (out.startswith("ok ") or cls in DOCUMENTED or cls.startswith("IOError(")):
+                ck.fail("pn53x-short-payload-internal-error", "%s %s: exchange() raised %s" % (name, what, cls),
+                        {"driver": name, "dir": d, "kind": kind, "site": list(site), "payload": hx(payload), "impl": out})
+        if "tt3" in KINDS[name][1]:
+            send, rf = rig.payloads("t", "tt3")
+            for fifo, what in ((b"", "FIFO level 0 with the receive interrupt set"), (b"\x00", "FIFO level 1, octet 00"),
+                               (b"\x03", "FIFO level 1, octet 03")):
+                rig.tr.arm()
+                rig.tr.fifo = fifo
+                rig.clock.now = 1000.0
+                rig.clf.target = rig.target("t", "tt3")
+                try:
+                    r = rig.clf.exchange(send, 0.1)
+                    out = "ok none" if r is None else "ok " + hx(r)
+                except Exception as e:  # noqa
+                    out = "exc " + name_of(e)
+                ck.case(("fifo-level", name, fifo), True, "short-payload")
+                cls = out[4:] if out.startswith("exc ") else ""
+                if not (out.startswith("ok ") or cls in DOCUMENTED or cls.startswith("IOError(")):
+                    ck.fail("pn53x-fifo-level-internal-error", "%s Type 3 Tag target, %s: exchange() raised %s" % (name, what, cls),
+                            {"driver": name, "fifo": hx(fifo), "impl": out})
 
     # ------------------------------------------------------------- frontend itself
     front = []
